@@ -18,7 +18,9 @@ EXPLANATION = (
     "%-formatting, arithmetic, comparison, iteration, join, unguarded event[key] or call-out receiving such a value is a "
     "may-raise site; each site must lie (in every calling context) inside the body of a try whose handler catches "
     "BaseException without re-raising (a handler that stops only Exception is reported separately), explicit raises "
-    "likewise; and every return of the entry functions must be text. Not decided: behaviour of library code that receives "
+    "likewise; and every return of the entry functions must be text. Construct keys are semantic: a site is attributed to the "
+    "function it would be inlined into (single-caller helpers count as inlined) and its text names event-derived operands by provenance "
+    "(<event['log_time']>, <caught exception>) with other locals alpha-renamed, so helper extraction / renaming keeps known findings known. Not decided: behaviour of library code that receives "
     "no event value (strftime, Failure()), truth-testing of event values, the observers that write the text "
     "(FileLogObserver.emit / formatTime of python/log.py)."
 )
